@@ -22,6 +22,11 @@ def to_sympy(j, evaluate=True):
         if isinstance(x, str):
             return Symbol(x)
         op, args = x[0], [rec(a) for a in x[1:]]
+        # unevaluated nodes over constants (e.g. ~True) are not something sympy's own routines handle
+        # consistently; keep those evaluated
+        ev = evaluate or any(a is true or a is false for a in args)
+        if ev is not evaluate:
+            return {"not": Not, "and": And, "or": Or, "xor": Xor, "ite": ITE, "imp": Implies}[op](*args)
         if op == "not":
             return Not(args[0]) if evaluate else Not(args[0], evaluate=False)
         if op == "and":
